@@ -33,7 +33,7 @@ PROBES = [
     "probe.read_spans_refill", "probe.chunk_inside_read", "probe.read_at_eof", "probe.multibyte_split",
     "probe.line_spans_chunk", "probe.bufwriter_overflow", "probe.big_write_bypass", "probe.kill_fired",
     "probe.kill_after_flush", "probe.append_existing", "probe.x_exists", "probe.a_missing", "probe.exit_unflushed",
-    "probe.readback", "probe.stdin_and_file", "probe.two_handles_one_file", "probe.two_appenders_one_file",
+    "probe.readback", "probe.stdin_and_file", "probe.two_handles_one_file", "probe.two_appenders_one_file", "probe.read_loop",
 ]
 
 HUGE = 1 << 40
@@ -103,8 +103,13 @@ def gen_read(rng, tier):
         # the other operations meet data, not end-of-input
         w_all = 30 if last else 5
         w_rts = 0 if kind == "stdin" else (25 if last else 3)
-        opk = rng.weighted([(45, "read"), (w_all, "readall"), (30, "read_line"), (w_rts, "read_to_string")])
-        if opk == "read":
+        opk = rng.weighted([(45, "read"), (w_all, "readall"), (30, "read_line"), (w_rts, "read_to_string"), (6 if rem > 0 else 0, "loop")])
+        if opk == "loop":
+            # drain the rest of the input with a loop of bounded reads (many calls on one handle)
+            kk = rng.choice([1, 7, 100, 1000, 4096, 5000, 8192]) if rem <= 3000 else rng.choice([100, 1000, 4096, 5000, 8192, 9000])
+            ops.append({"h": h, "op": "loop", "n": kk})
+            cursors[h] = len(data)
+        elif opk == "read":
             left_ops = max(1, counts[h] - done[h] + 1)
             n = rng.weighted([
                 (3, 0), (8, 1), (14, rng.range(2, 100)), (8, rng.range(100, 4000)),
@@ -342,6 +347,9 @@ def render_read(model):
         elif op["op"] == "readall":
             lines.append("let r = read(h%d);" % h)
             lines.append(script.obs_bytes(k))
+        elif op["op"] == "loop":
+            lines.append('let go = true; let cnt = 0; while go { let r = read(h%d, %d); cnt = cnt + 1; if is_error(r) { eprintln("#%d E {}", r); go = false; } else '
+                         '{ if len(r) == 0 { eprintln("#%d Z {}", cnt); go = false; } else { eprintln("#%d A {} {}", len(r), r); } } if cnt > 100000 { go = false; } }' % (h, op["n"], k, k, k))
         elif op["op"] == "read_line":
             lines.append("let r = read_line(h%d);" % h)
             lines.append(script.obs_str(k))
@@ -519,7 +527,9 @@ def check_read(model, res):
         cur = cursors[h]
         rem = len(data) - cur
         expect_err = False
-        if op["op"] == "read":
+        if op["op"] == "loop":
+            exp = data[cur:]
+        elif op["op"] == "read":
             exp = data[cur:cur + op["n"]]
         elif op["op"] == "readall":
             exp = data[cur:]
@@ -563,6 +573,35 @@ def check_read(model, res):
         if not o:
             viols.append(_viol("read:%s:missing" % tagname, "op %d (%s): no observation" % (k, op)))
             bad[h] = True
+            continue
+        if op["op"] == "loop":
+            inc("probe.read_loop")
+            chunks = []
+            endtag = None
+            okparse = True
+            for t, r in o:
+                if t == "A":
+                    try:
+                        chunks.append(script.decode_data(t, r)[1])
+                    except ValueError:
+                        okparse = False
+                else:
+                    endtag = t
+            got = b"".join(chunks)
+            n = op["n"]
+            if not okparse:
+                viols.append(_viol("read:%s:garbled" % tagname, "op %d: chunk line could not be parsed" % k))
+                bad[h] = True
+            elif endtag != "Z":
+                viols.append(_viol("read:%s:error" % tagname, "op %d read loop (n=%d) on %s handle ended with %s after %d bytes of %d" % (k, n, kind, endtag, len(got), len(exp))))
+                bad[h] = True
+            elif got != exp:
+                viols.append(_viol("read:%s:%s" % (tagname, _diff_class(exp, got) or "wrong"), "op %d: a loop of read(h, %d) on %s handle from offset %d of %d returned %d bytes in %d calls, expected %d" % (
+                    k, n, kind, cur, len(data), len(got), len(chunks), len(exp))))
+                bad[h] = True
+            elif any(len(c) != n for c in chunks[:-1]) or (chunks and len(chunks[-1]) > n):
+                viols.append(_viol("read:%s:chunking" % tagname, "op %d: read(h, %d) returned a short count before end of input: sizes %r" % (k, n, [len(c) for c in chunks][:12])))
+                bad[h] = True
             continue
         tag, rest = o[0]
         if tag == "E":
